@@ -3,6 +3,7 @@ package c16
 import (
 	"testing"
 
+	"verifharness/httpcheck"
 	"verifharness/pbt"
 	"verifharness/reqcheck"
 )
@@ -13,3 +14,9 @@ func TestReplay(t *testing.T) { pbt.Replay(t) }
 var Prop = pbt.Register(reqcheck.Prop("TestRequirednessTable"))
 
 func TestRequirednessTable(t *testing.T) { pbt.Run(t, Prop) }
+
+// Fields that are present and delivered to an http target (header, cookie, ...) are still present: the
+// requiredness handling of t2j must not miss them (required ones one level below the response included).
+var RespProp = pbt.Register(httpcheck.RespProp("TestMappedResponseFields"))
+
+func TestMappedResponseFields(t *testing.T) { pbt.Run(t, RespProp) }
